@@ -51,6 +51,13 @@ def rewrite(src, relpath, log):
     s = sub('R2', r'\bu8::from_be\(', 'vshim_u8_from_be(', s)
     s = sub('R3', r'\.try_into\(\)(\s*)\.unwrap\(\)', r'.vshim_try_into_unwrap()\1', s)
     s = sub('R3', r'\.try_into\(\)\.expect\("unreachable"\)', '.vshim_try_into_unwrap()', s)
+    # R11  range-indexed writes through a Box<[u8]>: make the reborrow that auto-deref performs explicit and let-bound
+    #      (Verus has no specification for IndexMut<Range..> through Box<[T]>; the same statement on a named &mut [u8] verifies)
+    if relpath == 'gse_decap/mod.rs':
+        s = sub('R11', r'(?m)^(\s*)([a-z_]+)\[([^\]\n]*\.\.[^\]\n]*)\]\.copy_from_slice\(([^\n]*)\);$',
+                r'\1{ let vshim_w: &mut [u8] = &mut *\2; vshim_w[\3].copy_from_slice(\4); }', s)
+        s = sub('R11', r'(?m)^(\s*)let ([a-z_]+) = &mut ([a-z_]+)\[([^\]\n]*\.\.[^\]\n]*)\];$',
+                r'\1let vshim_w_\2: &mut [u8] = &mut *\3; let \2 = &mut vshim_w_\2[\4];', s)
     # R10  slice.into() (only use in the crate: &[u8] -> Vec<u8>) -> shim with spec r@ == self@ (the shim is only implemented for [u8])
     s = sub('R10', r'\b([a-z_]+)\.into\(\)', r'\1.vshim_into_vec()', s)
     # R4  X.iter().fold(I, |a, x| { BODY })   ->  while loop with the same BODY (lines preserved)
@@ -157,6 +164,22 @@ def cut_inline_tests(src, relpath, log):
     return src[:k]
 
 
+def split_top(s):
+    out, depth, cur = [], 0, ''
+    for ch in s:
+        if ch in '([<{':
+            depth += 1
+        elif ch in ')]>}':
+            depth -= 1
+        if ch == ',' and depth == 0:
+            out.append(cur)
+            cur = ''
+        else:
+            cur += ch
+    out.append(cur)
+    return out
+
+
 class Splicer:
     def __init__(self, body, relpath, module, spec, first_line):
         self.body = body
@@ -215,6 +238,8 @@ class Splicer:
                 raise AnchorLost('%s: @ret given but the function has no return type' % f.path)
             self.add(f.ret_start, '(%s: ' % fs.ret, {'kind': 'ret', 'fn': f.path})
             self.add(f.ret_end, ')', {'kind': 'ret', 'fn': f.path})
+        if fs.predicates:
+            self.emit_predicates(f, fs)
         req = [c for c in fs.clauses if c.kind == 'requires']
         ens = [c for c in fs.clauses if c.kind == 'ensures']
         if req or ens or fs.decreases:
@@ -288,6 +313,47 @@ class Splicer:
                     self.add(self.body.index('\n', pos) + 1, block, tag)
             else:
                 raise AnchorLost('%s: unknown proof anchor %r' % (f.path, anchor))
+
+    def emit_predicates(self, f, fs):
+        # parameter list and return type, textually from the (rewritten) source
+        sig = self.body[f.fn_pos:f.sig_end]
+        lp = sig.index('(')
+        depth, k = 0, lp
+        while True:
+            if sig[k] == '(':
+                depth += 1
+            elif sig[k] == ')':
+                depth -= 1
+                if depth == 0:
+                    break
+            k += 1
+        params = [p.strip() for p in split_top(sig[lp + 1:k]) if p.strip()]
+        has_self = bool(params) and re.match(r'^&?\s*(mut\s+)?self$', params[0])
+        mut_self = has_self and 'mut' in params[0]
+        if has_self:
+            params = params[1:]
+        params = [re.sub(r'^mut\s+', '', p) for p in params]
+        if f.ret_start < 0:
+            raise AnchorLost('%s: @predicates needs a return type' % f.path)
+        ret = self.body[f.ret_start:f.ret_end].strip()
+        out = []
+        for c in fs.clauses:
+            if c.kind != 'ensures':
+                continue
+            name = 'cl_%s_%s' % (f.name, re.sub(r'[^A-Za-z0-9]', '_', c.cid))
+            text = c.text
+            if mut_self:
+                text = text.replace('old(self)', 'vs_old').replace('final(self)', 'vs_new')
+                head = ['vs_old: &Self', 'vs_new: &Self']
+            elif has_self:
+                text = re.sub(r'\bself\b', 'vs_old', text)
+                head = ['vs_old: &Self']
+            else:
+                head = []
+            text = re.sub(r'\bold\((\w+)\)', r'\1', text)
+            plist = ', '.join(head + params + ['%s: %s' % (fs.ret or 'res', ret)])
+            out.append('    pub open spec fn %s(%s) -> bool {\n        %s\n    }\n' % (name, plist, text.replace('\n', '\n        ')))
+        self.add(self.line_start(f.item_pos), ''.join(out), {'kind': 'ghost', 'what': 'predicates of ' + f.path})
 
     def render(self, extra_tail):
         """returns (text, linemap) where linemap[i] describes generated line i+1 of the *body*"""
